@@ -1,5 +1,5 @@
 #!/bin/bash
-# bin/check.sh <ID> <quick|thorough>      run one property check against /repo's current tree
+# bin/check.sh <ID> <quick|thorough>      run one property check against the current tree of /repo (or $VERIF_REPO)
 # bin/check.sh <ID> --replay <file>       re-execute one recorded violation
 # exit 0 = held on everything explored; 1 = VIOLATION printed; 2 = harness/build error
 set -u
@@ -8,7 +8,7 @@ ID="${1:?property id}"; shift
 MODE="${1:-quick}"
 [ -n "${VERIF_TIER:-}" ] && [ "$MODE" != "--replay" ] && [ $# -eq 0 ] && MODE="$VERIF_TIER"
 cd "$VERIF_DIR/harness" || exit 2
-cp /repo/go.sum go.sum 2>/dev/null
+MODFILE=$(verif_modfile)
 case "$ID" in
   C09|C14) INSTR=1 ;;
   *) INSTR=0 ;;
@@ -17,12 +17,12 @@ esac
 if [ $INSTR = 1 ]; then
   BIN="$VERIF_BUILD/vcheck-instr"
   "$VERIF_DIR/bin/instrument.sh" || { echo "BUILD-ERROR property=$ID (instrumenter failed on the current tree)" >&2; exit 2; }
-  if ! out=$(go build -overlay "$VERIF_BUILD/instr/overlay.json" -tags "verif verifinstr" -o "$BIN" ./cmd/vcheck 2>&1); then
+  if ! out=$(go build -modfile="$MODFILE" -overlay "$VERIF_BUILD/instr/overlay.json" -tags "verif verifinstr" -o "$BIN" ./cmd/vcheck 2>&1); then
     echo "BUILD-ERROR property=$ID (instrumented build of the current tree failed)" >&2; echo "$out" >&2; exit 2
   fi
 else
   BIN="$VERIF_BUILD/vcheck"
-  if ! out=$(go build -tags verif -o "$BIN" ./cmd/vcheck 2>&1); then
+  if ! out=$(go build -modfile="$MODFILE" -tags verif -o "$BIN" ./cmd/vcheck 2>&1); then
     echo "BUILD-ERROR property=$ID (current tree or hooks do not compile)" >&2; echo "$out" >&2; exit 2
   fi
 fi
